@@ -167,5 +167,18 @@ _c("__setitem__",
           for k in range(0, 4) for i in range(-k, k)] +
          [{"field_types": {"self.bar": "[" + ",".join(["[real,real,NoteContainer]"] * k) + "]"},
            "assume": "index >= %d or index < %d" % (k, -k)} for k in range(0, 4)],
-   split_is_domain=True, modifies=["param:self"], properties=["C13"], battery="bar_setitem",
+   variants=[dict(name="names", params={"self": "LiftBar", "index": "int", "value": "[str,str]"},
+                  requires="is_name(value[0]) and is_name(value[1])",
+                  ensures=[("that-entrys-content-is-a-container", "hasattr(self.bar[index][2], 'notes')"),
+                           ("a-new-one", "is_fresh(self.bar[index][2])"),
+                           ("holding-the-first-name-in-octave-4",
+                            "any([n.name == value[0] and n.octave == 4 for n in self.bar[index][2].notes])"),
+                           ("and-only-notes-named-in-the-list", "len(self.bar[index][2].notes) <= 2 and "
+                            "all([any([n.name == v for v in value]) for n in self.bar[index][2].notes])"),
+                           ("its-beat-and-value-stay",
+                            "self.bar[index][0] == old_entries[index][0] and self.bar[index][1] == old_entries[index][1]")],
+                  raises={},
+                  split=[{"field_types": {"self.bar": "[" + ",".join(["[real,real,NoteContainer]"] * k) + "]"}, "bind": {"index": i}}
+                         for k in (1, 2) for i in range(0, k)])],
+   split_is_domain=True, modifies=["param:self"], properties=["C13", "C11"], battery="bar_setitem",
    notes="domain: bars of 0..3 entries, any index (negative ones count from the end, out of range raises IndexError)")
